@@ -181,6 +181,8 @@ class Interp:
             if c in self.consts:
                 return self.consts[c]
             if isinstance(e, ast.Name):
+                if any(k.startswith(c + ".") for k in self.env):
+                    return Sym("object:" + c)  # an object we know fields of (e.g. after `message = None` on another path)
                 raise Unknown("name %s" % c)
             if last in self.consts and c.split(".")[0] not in self.env and not any(k.startswith(c.split(".")[0] + ".") for k in self.env):
                 return self.consts[last]
